@@ -165,14 +165,35 @@ class EvictRunner(Runner):
                 % (real[1], len(missing), len(expired), len(evicted), self.policy, short(self.trace[-6:], 500)),
             )
         vol = self.c.volume()
-        if self.policy != 'none' and vol > self.size_limit and len(self.m.items) > 0:
-            self.fail('cull/still-over-limit', 'after cull(): volume %d > size_limit %d with %d items' % (vol, self.size_limit, len(self.m.items)))
+        # measured independently of the cache's own accounting: database pages + bytes of the value files on disk
+        foot = footprint(self.c.directory)
+        if self.policy != 'none' and max(vol, foot) > self.size_limit and len(self.m.items) > 0:
+            self.fail('cull/still-over-limit', 'after cull(): volume() %d, measured footprint %d > size_limit %d with %d items' % (vol, foot, self.size_limit, len(self.m.items)))
+        if vol != foot:
+            self.fail('volume-accounting', 'after cull(): volume() reports %d, database pages + value files on disk occupy %d' % (vol, foot))
+
+
+def footprint(directory):
+    import os
+
+    con = sqlite3.connect(os.path.join(directory, 'cache.db'))
+    try:
+        ((pc,),) = con.execute('PRAGMA page_count').fetchall()
+        ((ps,),) = con.execute('PRAGMA page_size').fetchall()
+    finally:
+        con.close()
+    total = pc * ps
+    for root, _, files in os.walk(directory):
+        total += sum(os.path.getsize(os.path.join(root, f)) for f in files if f.endswith('.val'))
+    return total
 
 
 def ops(nkeys=24):
     k = st.sampled_from(['k%d' % i for i in range(nkeys)])
     filev = st.tuples(st.just('B'), st.integers(0, 255), st.sampled_from([1024, 2048, 4096, 6000, 8192, 12000, 16384]))
-    v = st.one_of(filev, filev, filev, st.tuples(st.just('i'), st.integers(0, 9)), st.tuples(st.just('S'), st.integers(0, 25), st.just(300)))
+    # file-backed text whose UTF-8 encoding is 2-4 times its length in characters: the footprint is bytes, not characters
+    textv = st.tuples(st.just('U'), st.integers(0, 2), st.sampled_from([1024, 2048, 4096]))
+    v = st.one_of(filev, filev, filev, textv, st.tuples(st.just('i'), st.integers(0, 9)), st.tuples(st.just('S'), st.integers(0, 25), st.just(300)))
     ttl = st.sampled_from([None, None, None, 5, 300])
     return st.one_of(
         st.tuples(st.just('set'), k, v, ttl, st.none()),
